@@ -282,6 +282,7 @@ func genReq(t *rapid.T, p reqPools) Req {
 	if chance(t, "proto", 10) {
 		r.Proto = pick(t, "protov", []string{"1.0", "2"})
 	}
+	genHostTLS(t, &r)
 	return r
 }
 
@@ -326,4 +327,26 @@ func genOtherHeaders(t *rapid.T, r *Req) {
 			}
 		}
 	}
+}
+
+// genHostTLS sometimes makes the request look same-origin: Host equal to the
+// host[:port] of its own Origin value, over TLS when the origin is https. A
+// CORS middleware must not treat such requests specially (Origin is what
+// counts; a reverse proxy may rewrite Host).
+func genHostTLS(t *rapid.T, r *Req) {
+	if !chance(t, "hosttls", 18) {
+		return
+	}
+	if o, ok := firstVal(*r, hOrigin); ok {
+		if i := strings.Index(o, "://"); i > 0 {
+			r.Host = o[i+3:]
+			r.TLS = strings.HasPrefix(o, "https")
+			if chance(t, "hostonly", 30) {
+				r.TLS = !r.TLS
+			}
+			return
+		}
+	}
+	r.Host = pick(t, "hostv", []string{"example.com", "localhost:8080", "127.0.0.1", "[::1]:9090"})
+	r.TLS = chance(t, "tls", 50)
 }
